@@ -401,21 +401,41 @@ def unpack_rule(ctx, R):
             y.kind == 'call' and y.name.rsplit('::', 1)[-1] in DROPPING + ('index',) for y in chain.walk())
         ctx.check(whole, R, b, 'unpack:every-block-in-order', repr(chain)[:100],
                   'the lanes are taken from %r: not every block of the feature, in order' % chain, c.ln)
-        # all 8 lanes appended: the array reference is handed whole to extend / extend_from_slice / chained
+        # all 8 lanes appended UNCHANGED: between the lane array and the sink (extend / extend_from_slice / the value a
+        # flat_map closure yields) only view / copy adaptors may stand - no map, filter, sub-range or index
+        PLAIN = ('as_array_ref', 'to_array', 'as_array', 'as_slice', 'iter', 'into_iter', 'copied', 'cloned', 'to_vec',
+                 'deref', 'as_ref', 'borrow', 'by_ref', 'clone', 'into', 'from')
         used_whole = False
-        for hb2 in [hb]:
-            e2 = ExprBuilder(hb2)
-            for c2 in hb2.find_calls():
-                if c2.name in ('extend_from_slice', 'extend', 'append', 'to_vec', 'into_iter', 'iter', 'copied',
-                               'cloned') and any(any(y.kind == 'call' and y.extra is c for y in e2.arg(c2, i).walk())
-                                                 for i in range(len(c2.args))):
-                    arg = [e2.arg(c2, i) for i in range(len(c2.args)) if any(
-                        y.kind == 'call' and y.extra is c for y in e2.arg(c2, i).walk())][0]
-                    used_whole = not any(y.kind == 'call' and y.name.rsplit('::', 1)[-1] in ('index', 'get', 'split_at',
-                                                                                           'first', 'last') for y in arg.walk())
-            ret = ExprBuilder(hb2).place(0, ())
-            if hb2.kind == 'Closure' and any(y.kind == 'call' and y.extra is c for y in ret.walk()):
+        e2 = ExprBuilder(hb)
+        sinks = []
+        for c2 in hb.find_calls():
+            if c2.name in ('extend_from_slice', 'extend', 'append', 'extend_from_within'):
+                for i in range(1, len(c2.args)):
+                    if any(y.kind == 'call' and y.extra is c for y in e2.arg(c2, i).walk()):
+                        sinks.append(e2.arg(c2, i))
+        ret = e2.place(0, ())
+        if hb.kind == 'Closure' and any(y.kind == 'call' and y.extra is c for y in ret.walk()):
+            sinks.append(ret)
+        for sk in sinks:
+            ops_between = []
+
+            def down(y):
+                if y.kind == 'call' and y.extra is c:
+                    return True
+                for a_ in y.args:
+                    if isinstance(a_, E) and any(z.kind == 'call' and z.extra is c for z in a_.walk()):
+                        if y.kind == 'call':
+                            ops_between.append(y.name.rsplit('::', 1)[-1])
+                        elif y.kind != 'phi':
+                            ops_between.append(y.kind)
+                        return down(a_)
+                return False
+            down(sk)
+            if all(o in PLAIN for o in ops_between):
                 used_whole = True
+            else:
+                used_whole = False
+                break
         n += 1
         ctx.check(used_whole, R, b, 'unpack:all-lanes-of-a-block', '',
                   'not all 8 lanes of a block are appended to the result', c.ln)
